@@ -24,7 +24,8 @@ OUT = os.path.join(HERE, "lean/MultiModel/Gen/IterGen.lean")
 OUTJ = os.path.join(HERE, "lean/MultiModel/Gen/IterGen.functions.json")
 
 GL.TEMPLATE_IDS |= {"extensions_t"}
-GL.CTOR_NAMES |= {"extensions_t", "indices_type", "iterator", "array_iterator", "elements_iterator_t"}
+GL.CTOR_NAMES |= {"extensions_t", "indices_type", "iterator", "array_iterator", "elements_iterator_t", "cursor_t"}
+GL.TEMPLATE_IDS |= {"cursor_t"}
 
 NEXT_RE = re.compile(r"std::apply\(\s*\[&xs\s*=\s*this->xs_\]\s*\(auto&\.\.\.\s*idxs\)\s*\{\s*return\s+xs\.(next|prev)_canonical\(idxs\.\.\.\);\s*\}\s*,\s*ns_\s*\)")
 
@@ -33,6 +34,7 @@ RECS = {
     "arrit1": ("ArrIt", ["ptr", "stride", "sub"]),
     "elemit": ("ElemIt", ["base", "lay", "n", "xs", "ns"]),
     "erange": ("ElemRange", ["base", "lay"]),
+    "cursor": ("Cursor", ["base", "strides"]),
 }
 
 
@@ -43,6 +45,8 @@ def rec_of(kind, var):
         return {"base": ("int", f"{var}.base"), "lay": ("lay", ("var", f"{var}.lay")), "n": ("int", f"{var}.n"), "xs": ("elist", f"{var}.xs"), "ns": ("ilist", f"{var}.ns")}
     if kind == "erange":
         return {"base": ("int", f"{var}.base"), "lay": ("lay", ("var", f"{var}.lay"))}
+    if kind == "cursor":
+        return {"base": ("int", f"{var}.base"), "strides": ("ilist", f"{var}.strides")}
     raise TranslateError(kind)
 
 
@@ -51,6 +55,7 @@ FIELD_OF = {
     "arrit1": {"stride_": "stride", "ptr_": "ptr"},
     "elemit": {"base_": "base", "l_": "lay", "n_": "n", "xs_": "xs", "ns_": "ns"},
     "erange": {"base_": "base", "l_": "lay"},
+    "cursor": {"base_": "base", "strides_": "strides"},
 }
 
 
@@ -167,6 +172,8 @@ class It(GL.Interp):
                 return ("ptrD", self.rec["ptr"][1], self.rec["sub"][1])
             if n == "D" and self.kind == "exts":
                 return ("int", f"({self.recv}.length : Int)")
+            if n == "D" and self.kind == "cursor":
+                return ("int", f"({self.recv}.strides.length : Int)")
             raise TranslateError(f"{self.fname}: unknown identifier {n}")
         if k == "?:":
             cond = self.as_bool(self.eval(e[1]))
@@ -234,6 +241,10 @@ class It(GL.Interp):
                 if nm == "ArrIt":
                     fn = "ArrIt.add" if k == "+" else "ArrIt.sub'"
                     return ("rec", a[1], rec_of(a[1], f"({fn} {render_rec(a[1], a[2])} {paren(b[1])})"))
+        if k == "index" and self.kind == "cursor":
+            v = self.eval(e[1])
+            if v[0] == "int":      # base_[i] of a one-dimensional cursor: the element at that address = a cursor with no stride left
+                return ("rec", "cursor", {"base": ("int", f"({paren(v[1])} + {paren(self.as_int(self.eval(e[2])))})"), "strides": ("ilist", "([] : List Int)")})
         if k == "index":
             v = self.eval(e[1])
             if v[0] == "int":      # base_[i]: the element at that address
@@ -243,6 +254,8 @@ class It(GL.Interp):
             a = [self.eval(x) for x in e[3]]
             if base == "extensions_t" and len(a) == 1 and a[0][0] == "elist":
                 return a[0]
+            if base == "cursor_t" and len(a) == 2 and a[0][0] == "int" and a[1][0] == "ilist":
+                return ("rec", "cursor", {"base": a[0], "strides": a[1]})
             if base == "indices_type":
                 if not a:
                     return ("ilist", f"(List.replicate {paren(self.xs())}.length (0 : Int))")
@@ -305,6 +318,8 @@ class It(GL.Interp):
                 v = self.eval(args[0])
                 if v[0] == "etuple":
                     return ("ext", f"(hdE {paren(v[1])})")
+                if v[0] == "ilist":
+                    return ("int", f"(List.headD {paren(v[1])} 0)")
             if base in ("from_linear_",) and self.kind == "elemit" and len(args) == 1:
                 v = self.bind("ns", f"ElemRange.fromLinearG {paren(self.rec['xs'][1])} {paren(self.as_int(self.eval(args[0])))}")
                 return ("ilist", v)
@@ -333,6 +348,8 @@ class It(GL.Interp):
             if v[0] == "lvref":
                 v = self.read_lv(v[1])
             a = None
+            if v[0] == "ilist" and name == "tail" and not args:
+                return ("ilist", f"(List.tail {paren(v[1])})")
             if v[0] == "etuple":
                 if name == "head" and not args:
                     return ("ext", f"(hdE {paren(v[1])})")
@@ -522,6 +539,7 @@ REGIONS = {
     "arrit1": ("array_ref.hpp", r"struct\s+array_iterator<Element,\s*1,\s*Ptr,\s*IsConst,\s*IsMove,\s*Stride>"),
     "elemit": ("array_ref.hpp", r"struct\s+elements_iterator_t\s*:"),
     "erange": ("array_ref.hpp", r"struct\s+elements_range_t\s*\{"),
+    "cursor": ("array_ref.hpp", r"struct\s+cursor_t\s*\{"),
 }
 
 # (lean name, region, C++ name or operator, selector, kind)
@@ -569,6 +587,7 @@ TARGETS = [
     ("E_deref", "elemit", "operator*", dict(nparams=0), "elemit"),
     ("E_current", "elemit", "current", dict(nparams=0), "elemit"),
     ("E_at", "elemit", "operator[]", dict(nparams=1), "elemit"),
+    ("CU_index", "cursor", "operator[]", dict(nparams=1), "cursor"),
     ("ER_at_aux", "erange", "at_aux_", dict(nparams=1), "erange"),
     ("ER_size", "erange", "size", dict(nparams=0), "erange"),
     ("ER_is_empty", "erange", "is_empty", dict(nparams=0), "erange"),
@@ -642,7 +661,7 @@ def translate_one(lean_name, region, cpp, sel, kind):
         raise TranslateError(f"{rel}:{cpp}: no definition matching {sel}")
     rendered = []
     for fn in c:
-        recv = {"exts": "xs", "exts1": "xs", "arrit": "it", "arrit1": "it", "elemit": "it", "erange": "r"}[kind]
+        recv = {"exts": "xs", "exts1": "xs", "arrit": "it", "arrit1": "it", "elemit": "it", "erange": "r", "cursor": "c"}[kind]
         it = It(kind, recv, {}, f"{rel}:{fn['line']}:{cpp}", src, (rel, hdr))
         it.home = (src, lo, hi)
         binders = []
@@ -677,7 +696,7 @@ def translate_one(lean_name, region, cpp, sel, kind):
             raise TranslateError(f"{rel}:{fn['line']}:{cpp}: no return value")
         fin = it.finish(r, 0)
         ty = f"Option ({fin[1]})" if fin[3] else fin[1]
-        recvb = {"exts": "(xs : List Ext)", "exts1": "(xs : List Ext)", "arrit": "(it : ArrIt)", "arrit1": "(it : ArrIt)", "elemit": "(it : ElemIt)", "erange": "(r : ElemRange)"}[kind]
+        recvb = {"exts": "(xs : List Ext)", "exts1": "(xs : List Ext)", "arrit": "(it : ArrIt)", "arrit1": "(it : ArrIt)", "elemit": "(it : ElemIt)", "erange": "(r : ElemRange)", "cursor": "(c : Cursor)"}[kind]
         b = " ".join([recvb] + binders + (["(sameObject : Bool)"] if it.same_object else []))
         text = f"def {lean_name} {b} : {ty} :=\n  {fin[2]}\n"
         if it.asserts:
@@ -735,6 +754,24 @@ def erange_ctor():
     return txt, dict(lean="ER_ctor", file=rel, lines=[cands[0]["line"], zb[0]["line"]], cpp="elements_range_t(pointer, layout_type const&)", asserts=0, untranslated_asserts=[], result="ElemRange")
 
 
+def home_aux():
+    rel = "array_ref.hpp"
+    src = prep(GL.source(rel))
+    lines = []
+    for region in ("viewD", "view1"):
+        lo, hi = GL.class_region(src, GL.REGIONS[region][1])
+        cands = GL.member_functions(src, lo, hi, "home_aux_")
+        if len(cands) != 1:
+            raise TranslateError(f"{rel}: home_aux_ in {region}: {len(cands)} definitions")
+        body = re.sub(r"\s+", "", cands[0]["body"])
+        if body != "returncursor(this->base_,this->strides());":
+            raise TranslateError(f"{rel}:{cands[0]['line']}: home_aux_ body is {body!r}")
+        lines.append(cands[0]["line"])
+    txt = (f"/-- {rel}:{', '.join(map(str, lines))}  `home_aux_() const {{return cursor(this->base_, this->strides());}}` (D > 1 class and D = 1 specialisation) -/\n"
+           "def V_home_aux (v : View) : Cursor :=\n  (⟨v.base, Layout.strides v.lay⟩ : Cursor)\n")
+    return txt, dict(lean="V_home_aux", file=rel, lines=lines, cpp="home_aux_", asserts=0, untranslated_asserts=[], result="Cursor")
+
+
 PRELUDE = """/-
   GENERATED by tools/gen_iters.py from the headers under $VERIF_REPO/include/boost/multi — DO NOT EDIT.
   Iterators (`array_iterator`), flat element iterators/ranges (`elements_iterator_t`, `elements_range_t`) and the
@@ -757,7 +794,7 @@ def hdE (xs : List Ext) : Ext := xs.headD ⟨0, 0⟩
 def main():
     out = [PRELUDE]
     meta, errors = [], []
-    for f in (elemit_ctor, erange_ctor):
+    for f in (elemit_ctor, erange_ctor, home_aux):
         try:
             t, m = f()
             out.append(t)
